@@ -164,7 +164,7 @@ def run_check(run, tier):
     viols = [r for r in recs if r['status'] == 'refuted']
     DCK.absorb(run, recs)
     found = None
-    if run.pending_failures or tier == 'thorough':
+    if run.pending_failures or run.undecided or tier == 'thorough':
         out = native({'kind': 'interleaving_search', 'seed': run.seed, 'budget': 300 if tier == 'quick' else 3000}, timeout=900)
         run.bounded.append({'what': 'native search: all interleavings of small two-thread programs (refute mode)', 'tried': out.get('tried'),
                             'bound': out.get('bound'), 'found': bool(out.get('found'))})
